@@ -1,6 +1,14 @@
 # per-property claim texts used by mk_manifest.py
 NA = {}
 CLAIMS = {
+ 'C20': {
+  'technique': 'Coq proofs over R of the update rule, count non-interference and the sigma-split identity on expressions regenerated from adaclipoptimizer.py; recorded-noise runs on the real optimizer',
+  'text': ('PARTIAL. Proved for the expressions generated from AdaClipDPOptimizer (update_max_grad_norm, the noise-multiplier formula of __init__): the new norm is '
+           'clamp(C exp(-lr (noisy_count/sample_size - gamma)), [min,max]); it depends on the raw count only through the noisy count; sigma_g^-2 + (2 sigma_b)^-2 = sigma^-2. '
+           'add_noise / clip_and_accumulate counters / zero_grad and the ghost adaptive engine\'s rule are pinned or regenerated into the optimizer state machine (counters survive skipped '
+           'physical steps, no update on skipped steps). Real AdaClipDPOptimizer steps with recorded torch.normal draws are compared with the rule. The accounting half is FALSE of the code '
+           '(theorem C20_sigma_g_exceeds_nominal, Findings/C20.v): the accountant is charged sigma_g > sigma -- recorded as a known finding. The privacy reading of the identity (Andrew et al. 2021) is cited.'),
+ },
  'C07': {
   'technique': 'Coq proofs of the FFT roll / parity / shift / triple-ordering bookkeeping on generated code; one-hot spike correspondence and bracketing runs on the real PRV accountant',
   'text': ('PARTIAL. Proved for the pieces generated from compose.py / domain.py / prvs.py: roll_alignment (for every composition count n >= 1 of either parity, every grid '
